@@ -77,16 +77,16 @@ class Run:
         self.weak_created: set = set()
 
     def decide(self, term, site=None) -> bool:
-        for t, d, _ in self.facts:
-            if t == term:
-                return d
+        for f in self.facts:
+            if f[0] == term:
+                return f[1]
         if self.pos < len(self.decisions):
             d = self.decisions[self.pos]
         else:
             d = True
             self.decisions.append(True)
         self.pos += 1
-        self.facts.append((term, d, site))
+        self.facts.append((term, d, site, len(self.effects)))
         return d
 
     def fresh_wire(self) -> int:
@@ -104,7 +104,7 @@ class Path:
         self.facts, self.effects, self.outcome, self.value, self.notes = facts, effects, outcome, value, notes
 
     def __repr__(self):
-        cs = " & ".join(("" if d else "not ") + show_term(t) for t, d, _ in self.facts)
+        cs = " & ".join(("" if f[1] else "not ") + show_term(f[0]) for f in self.facts)
         return f"[{cs}] {self.effects} -> {self.outcome} {self.value!r}"
 
 
